@@ -594,7 +594,7 @@ def gr_8b(ctx, rep):
     rep.rule('GR-8b', 'every grammar rule whose right-hand side contains a binding operator (:=, for, del, import, as) is '
                       'a definition type, is delegated to one, or is special-cased in Name.get_definition')
     table = module_set(ctx, PYTREE, '_GET_DEFINITION_TYPES')
-    gd = ctx.prog.func(PYTREE, 'Name.get_definition')
+    gd = ctx.view(ctx.prog.func(PYTREE, 'Name.get_definition'))      # private helpers it was split into are read in place
     src = norm(gd.node, 5000)
     for k in SPECIAL_CASED:
         rep.ob('GR-8b', PYTREE, gd.qual, 'special case %r' % k, ("'%s'" % k) in src,
@@ -666,6 +666,13 @@ def gr_8c(ctx, rep):
         raise AnalysisError('anchor vanished: Function.iter_yield_exprs')
     found = 0
     funcs = [fn] + list(fn.nested.values())
+    # the scanning function may live at module level (a closure that was moved out)
+    for n in walk_own(fn.node):
+        if isinstance(n, ast.Call) and isinstance(n.func, ast.Name):
+            t = prog.resolve_global(fn.mod, n.func.id)
+            if hasattr(t, 'node') and t not in funcs and getattr(t, 'mod', None) is fn.mod and any(
+                    isinstance(c, ast.Call) and isinstance(c.func, ast.Name) and c.func.id == t.name for c in walk_own(t.node)):
+                funcs.append(t)
     import re as _re
     from ..facts import facts_at
     for g in funcs:
@@ -700,7 +707,7 @@ def gr_8d(ctx, rep):
     from ..facts import facts_at
     from . import tc
     dn = ctx.prog.func(PYTREE, '_defined_names')
-    gd = ctx.prog.func(PYTREE, 'Name.get_definition')
+    gd = ctx.view(ctx.prog.func(PYTREE, 'Name.get_definition'))     # private helpers it was split into are read in place
     # the target path: every node type literal _defined_names tests its argument against
     param = dn.params()[0]
     path_types = set()
